@@ -99,7 +99,7 @@ Lemma ref_name_some refs rid nm : ref_name refs rid = Some nm ->
   end.
 Proof.
   destruct rid as [i|]; cbn.
-  - destruct (nth_error refs (N.to_nat i)) eqn:E; [|discriminate]. intro H; inversion H; subst. exact E.
+  - destruct (nth_error refs (N.to_nat i)) as [b|]; [|discriminate]. intro H; inversion H; subst. reflexivity.
   - intro H; inversion H. exact I.
 Qed.
 
@@ -162,6 +162,18 @@ Proof.
   now destruct (char_kind_char k Hk) as (_ & _ & P).
 Qed.
 
+Lemma parse_ops_step f s : s <> [] ->
+  parse_ops (S f) s =
+    match parse_partial_int false 0 USIZE_MAX s with
+    | Some (l, c :: rest) =>
+        match char_kind c with
+        | Some k => option_map (cons (k, Z.to_N l)) (parse_ops f rest)
+        | None => None
+        end
+    | _ => None
+    end.
+Proof. destruct s; [contradiction|reflexivity]. Qed.
+
 Lemma parse_ops_write ops : Forall wf_op ops -> forall fuel, (length ops <= fuel)%nat ->
   parse_ops fuel (write_ops ops) = Some ops.
 Proof.
@@ -169,10 +181,8 @@ Proof.
   - destruct fuel; reflexivity.
   - cbn [fst snd] in *. destruct fuel as [|f]; [cbn in Hf; lia|].
     cbn [write_ops]. destruct (char_kind_char k Hk) as (CK & ND & _).
-    destruct (fmt_N_head l) as (c & tl & E & Hc).
-    cbn [parse_ops]. rewrite E. cbn [app]. rewrite <- app_comm_cons in *.
-    change (c :: tl ++ kind_char k :: write_ops t) with ((c :: tl) ++ kind_char k :: write_ops t).
-    rewrite <- E.
+    rewrite parse_ops_step.
+    2:{ destruct (fmt_N_head l) as (c & tl & E & _). rewrite E. discriminate. }
     rewrite (parse_partial_fmt_N false 0 USIZE_MAX l (kind_char k :: write_ops t)); [|exact ND|lia].
     rewrite CK. rewrite IH by (cbn in Hf; lia). cbn. now rewrite Znat.N2Z.id.
 Qed.
@@ -230,7 +240,7 @@ Proof.
   - intro H; inversion H; subst. split; [reflexivity|repeat constructor].
   - destruct (len (c :: q) =? bc) eqn:L; [|discriminate].
     destruct (forallb (fun n => n <=? 93) (c :: q)) eqn:V; [|discriminate].
-    intro H; inversion H; subst f. rewrite forallb_forall in V.
+    intro H; injection H as <-. rewrite forallb_forall in V.
     assert (G : forallb graphic (map (fun n => n + 33) (c :: q)) = true).
     { apply forallb_forall. intros x Hx. apply in_map_iff in Hx as (y & <- & Hy).
       specialize (V y Hy). unfold graphic. lia. }
@@ -246,9 +256,9 @@ Proof.
         assert (L2 : negb (len (c + 33 :: d + 33 :: map (fun n => n + 33) q) =? bc) = false).
         { unfold len in *. cbn [length] in *. rewrite map_length. lia. }
         rewrite L2. change (c + 33 :: d + 33 :: map (fun n => n + 33) q) with (map (fun n => n + 33) (c :: d :: q)).
-        rewrite G, map_sub_add. reflexivity.
-    + apply Forall_forall. intros x Hx. apply in_map_iff in Hx as (y & <- & Hy).
-      specialize (V y Hy). unfold printable. lia.
+        rewrite G. cbn [map]. rewrite ?map_sub_add. repeat (f_equal; try lia).
+    + rewrite forallb_forall in G. apply Forall_forall. intros x Hx. specialize (G x Hx).
+      unfold graphic, printable in *. lia.
 Qed.
 
 (* ---- optional fields *)
@@ -292,7 +302,7 @@ Proof.
     rewrite E. unfold rest. rewrite IH by (cbn in Hf; lia). reflexivity.
 Qed.
 
-Lemma arr_len {A} (g : A -> bytes) vs : (length vs <= length (concat (map (fun v => 44 :: g v) vs)))%nat.
+Lemma arr_len {A} (g : A -> bytes) (vs : list A) : (length vs <= length (concat (map (fun v => 44%N :: g v) vs)))%nat.
 Proof.
   induction vs as [|v vs IH]; cbn [map concat length app]; [lia|]. rewrite app_length. lia.
 Qed.
